@@ -159,3 +159,59 @@ Fixpoint print (e : expr) : string :=
 
 Definition print_opt (oe : option (option expr)) : string :=
   match oe with Some (Some e) => print e | _ => "" end.
+
+(* ------------------------------------------------------------------------------------------- concurrent requests
+   Several set_attr / remove coroutines in flight on one event loop.  A request first passes some suspension points that do
+   not touch the registry (`await self.get_attr(name)`, `await self.is_writable()`, `await self._sequence.cancel()`), then
+   runs parse + check_loops, then -- after `gap` further suspension points -- stores the expression, then continues with
+   code that no longer touches `_expression` (main.update(), trigger_update()).  In the source `gap` is 0: between the
+   `await core_expressions.check_loops(...)` (which awaits only its own recursion) and `self._expression = expression` there
+   is no await; Gen/C04Gen.v is regenerated from the source with the number found there.  A schedule is the sequence of task
+   indices the event loop resumes. *)
+Inductive pc := Pre (k : nat) | Mid (ok : bool) (j : nat) | Fin.
+
+Definition task := (op * pc)%type.
+
+(* the store of a request whose check was made earlier, on whatever the registry is now *)
+Definition late_store (g : graph) (o : op) (ok : bool) : graph :=
+  match o with
+  | OSet p (TExpr e) => if ok then update g p (Some e) else g
+  | _ => g
+  end.
+
+Definition task_step (gap : nat) (g : graph) (t : task) : graph * task :=
+  let '(o, c) := t in
+  match c with
+  | Pre (S k) => (g, (o, Pre k))
+  | Pre O =>
+      match gap, o with
+      | S j, OSet p (TExpr e) =>
+          match lookup g p with
+          | Some _ => (g, (o, Mid (negb (check_loops g p e)) j))     (* checked now, stored later *)
+          | None => (g, (o, Fin))
+          end
+      | _, _ => (apply g o, (o, Fin))                                 (* check and store in one piece *)
+      end
+  | Mid ok (S j) => (g, (o, Mid ok j))
+  | Mid ok O => (late_store g o ok, (o, Fin))
+  | Fin => (g, t)
+  end.
+
+Fixpoint set_nth {A} (l : list A) (i : nat) (x : A) : list A :=
+  match l, i with
+  | [], _ => []
+  | _ :: r, O => x :: r
+  | y :: r, S k => y :: set_nth r k x
+  end.
+
+Fixpoint run_sched (gap : nat) (g : graph) (ts : list task) (sched : list nat) : graph * list task :=
+  match sched with
+  | [] => (g, ts)
+  | i :: rest =>
+      match nth_error ts i with
+      | None => run_sched gap g ts rest
+      | Some t => let '(g', t') := task_step gap g t in run_sched gap g' (set_nth ts i t') rest
+      end
+  end.
+
+Definition fresh (t : task) : bool := match snd t with Pre _ => true | _ => false end.
